@@ -6,7 +6,7 @@ import ast
 import itertools
 from collections.abc import Callable, Iterable
 
-from .. import AnalysisError
+from .. import AnalysisError, ShapeMismatch
 from ..astutil import (
     calls_in, dump, find_all, match, norm_stmt, parse_expr, parse_stmt, path_of, same, subst, unparse, walk_scope,
     walk_stmts,
@@ -40,14 +40,14 @@ def exprs_matching(fn: FunctionInfo | ast.AST, pattern: str | ast.AST) -> list[t
 
 def need(cond, msg: str):
     if not cond:
-        raise AnalysisError(msg)
+        raise ShapeMismatch(msg)
     return cond
 
 
 def node_of(cfg: CFG, a: ast.AST) -> Node:
     ns = cfg.nodes_for(a)
     if not ns:
-        raise AnalysisError(f"no CFG node for construct at line {getattr(a, 'lineno', '?')}: {norm_stmt(a)}")
+        raise ShapeMismatch(f"no CFG node for construct at line {getattr(a, 'lineno', '?')}: {norm_stmt(a)}")
     return ns[0]
 
 
@@ -140,7 +140,7 @@ def guard(ctx: Ctx, rule: str, fn: FunctionInfo, stmt_pattern: str, requires: st
     if where is not None:
         sites = [(s, b) for s, b in sites if where(s, b)]
     if len(sites) < min_sites:
-        raise AnalysisError(f"{rule}: pattern `{stmt_pattern}` matched {len(sites)} site(s) in {fn.key}, expected >= {min_sites}")
+        raise ShapeMismatch(f"{rule}: pattern `{stmt_pattern}` matched {len(sites)} site(s) in {fn.key}, expected >= {min_sites}")
     reqs = [requires] if isinstance(requires, str) else list(requires)
     for st, b in sites:
         results = []
@@ -721,13 +721,80 @@ def guard_latch(ctx: Ctx, rule: str, fn: FunctionInfo, flag: str, action_pattern
     either dominated by `not flag` itself or only reachable through the latch statement (so it runs at most once)."""
     latch = stmts_matching(fn, f"{flag} = True")
     if len(latch) != 1:
-        raise AnalysisError(f"{rule}: expected exactly one `{flag} = True` in {fn.key}, found {len(latch)}")
+        raise ShapeMismatch(f"{rule}: expected exactly one `{flag} = True` in {fn.key}, found {len(latch)}")
     ok, why = holds_with_callers(ctx, fn, latch[0][0], [parse_expr(f"not {flag}")], depth=0)
     ctx.ob(rule, "G1", fn, latch[0][0], ok, f"{what}: the latch `{flag} = True` is set only under `not {flag}` — " + ("holds" if ok else "FAILS: " + why))
     acts = stmts_matching(fn, action_pattern)
     if not acts:
-        raise AnalysisError(f"{rule}: pattern `{action_pattern}` matched nothing in {fn.key}")
+        raise ShapeMismatch(f"{rule}: pattern `{action_pattern}` matched nothing in {fn.key}")
     for st, _ in acts:
         ok1, _ = holds_with_callers(ctx, fn, st, [parse_expr(f"not {flag}")], depth=0)
         ok2 = not always_before(ctx, fn, lambda n: n.ast is latch[0][0], lambda n, st=st: n.ast is st)
         ctx.ob(rule, "G1", fn, st, ok1 or ok2, f"{what}: `{norm_stmt(st)}` runs at most once (behind the `{flag}` latch)")
+
+
+# ------------------------------------------------------------------------------------------
+# G8 — message schema / handler exhaustiveness agreement inside one protocol class
+# ------------------------------------------------------------------------------------------
+
+
+def protocol_schema(ctx: Ctx, rule: str, cls: ClassInfo, *, send_attr: str = "self._network.send", meta_names=("metadata", "meta", "payload", "data")) -> dict:
+    """For a protocol entity class: dispatch table, per event type the payload keys written at every send site, and the
+    keys each handler reads *without default*.  Records obligations: every sent type has a handler (when the class dispatches
+    on it), every self-scheduled type has a handler, handler reads ⊆ keys written by every send site."""
+    prog = ctx.prog
+    methods = [f for f in cls.module.all_functions if f.cls is cls]
+    he = cls.methods.get("handle_event")
+    if he is None:
+        raise AnalysisError(f"{rule}: {cls.key} has no handle_event")
+    dispatch: dict[str, str] = {}
+    for n in walk_scope(he.node):
+        if isinstance(n, ast.Dict):
+            for k, v in zip(n.keys, n.values):
+                if isinstance(k, ast.Constant) and isinstance(k.value, str) and isinstance(v, ast.Attribute) and path_of(v.value) == "self":
+                    dispatch[k.value] = v.attr
+        if isinstance(n, ast.If):
+            for f in atoms(n.test, True):
+                if f.op == "eq" and ("event_type" in f.a or "event_type" in f.b):
+                    lit = f.a if f.a.startswith(("'", '"')) else f.b
+                    try:
+                        t = ast.literal_eval(lit)
+                    except Exception:
+                        continue
+                    calls = [c for b in n.body for c in calls_in(b) if isinstance(c.func, ast.Attribute) and path_of(c.func.value) == "self"]
+                    if calls and isinstance(t, str):
+                        dispatch[t] = calls[0].func.attr
+    sends: dict[str, list[tuple[FunctionInfo, ast.Call, set[str]]]] = {}
+    self_events: dict[str, list[tuple[FunctionInfo, ast.Call]]] = {}
+    for m in methods:
+        for c in calls_in(m.node):
+            p = path_of(c.func) or ""
+            kw = {k.arg: k.value for k in c.keywords if k.arg}
+            if p == send_attr and isinstance(kw.get("event_type"), ast.Constant):
+                keys = set()
+                pl = kw.get("payload")
+                if isinstance(pl, ast.Dict):
+                    keys = {k.value for k in pl.keys if isinstance(k, ast.Constant)}
+                sends.setdefault(kw["event_type"].value, []).append((m, c, keys))
+            elif p.split(".")[-1] == "Event" and isinstance(kw.get("event_type"), ast.Constant) and path_of(kw.get("target")) == "self":
+                self_events.setdefault(kw["event_type"].value, []).append((m, c))
+    reads: dict[str, set[str]] = {}
+    for t, hname in dispatch.items():
+        h = cls.methods.get(hname)
+        if h is None:
+            ctx.ob(rule, "G8", he, f"handler for {t}", False, f"dispatch table names `{hname}` for `{t}` but the class has no such method")
+            continue
+        rk = set()
+        for n in walk_scope(h.node):
+            if isinstance(n, ast.Subscript) and isinstance(n.ctx, ast.Load) and path_of(n.value) in meta_names and isinstance(n.slice, ast.Constant) and isinstance(n.slice.value, str):
+                rk.add(n.slice.value)
+        reads[t] = rk
+    for t, sites in sends.items():
+        if t in dispatch:
+            for m, c, keys in sites:
+                missing = sorted(reads.get(t, set()) - keys)
+                ctx.ob(rule, "G8", m, f"send {t}", not missing,
+                       f"every key the `{t}` handler reads without default is written by this send site (payload keys {sorted(keys)})" + ("" if not missing else f" — missing {missing}"), node=c)
+    for t, sites in self_events.items():
+        ctx.ob(rule, "G8", sites[0][0], f"self-scheduled {t}", t in dispatch, f"the entity schedules `{t}` to itself and its handle_event has a branch for it", node=sites[0][1])
+    return {"dispatch": dispatch, "sends": sends, "reads": reads, "self_events": self_events}
